@@ -471,16 +471,20 @@ class Case:
         return Case(j["N"], tuple(j["modes"]), hot, low, j.get("tag", "replay"))
 
 
-def gen_case(rng, N, nterms, tag, modes=None, low=False):
+def gen_case(rng, N, nterms, tag, modes=None, low=False, degrees=None):
     modes = modes or rng.choice(MODES)
     hot = {}
     while len(hot) < nterms:
-        d = rng.randint(3, N) if rng.random() < 0.6 else 3
+        if degrees:
+            d = rng.choice(degrees)
+        else:
+            d = rng.randint(3, N) if rng.random() < 0.6 else 3
         k = rand_mono(rng, d)
         hot[k] = rand_coef(rng)
-    # make sure both kinds of monomials occur in degree 3
-    hot.setdefault((2, 0, 0, 1, 0, 0), rand_coef(rng))
-    hot.setdefault((1, 1, 0, 1, 0, 0) if rng.random() < 0.5 else (1, 0, 1, 1, 0, 0), rand_coef(rng))
+    if not degrees:
+        # make sure both kinds of monomials occur in degree 3
+        hot.setdefault((2, 0, 0, 1, 0, 0), rand_coef(rng))
+        hot.setdefault((1, 1, 0, 1, 0, 0) if rng.random() < 0.5 else (1, 0, 1, 1, 0, 0), rand_coef(rng))
     lowd = {}
     if low:
         lowd[rand_mono(rng, 1)] = rand_coef(rng)
@@ -505,6 +509,10 @@ def synthetic_cases(ctx):
     cases.append(gen_case(rng, 4, 6, "resonant", modes=(2.0, 1.0, 1.0)))
     cases.append(gen_case(rng, 5, 5, "resonant-1:2", modes=(1.5, 2.0, 1.0)))
     cases.append(gen_case(rng, 4, 5, "lam=0", modes=(0.0, 2.0, 1.25)))
+    # generating functions with GAPS: an even Hamiltonian has G3 = G5 = 0 but G4, G6 != 0 (the loops over generator degrees must skip
+    # a vanishing degree, not stop at it)
+    cases.append(gen_case(rng, 6, 5, "even-4-6", degrees=(4, 6)))
+    cases.append(gen_case(rng, 5, 4, "even-4", degrees=(4,)))
     # small (but far from guarded) divisors: lam = 2^-4, nearly resonant centre frequencies
     cases.append(gen_case(rng, 4, 6, "small-divisors", modes=(2.0 ** -4, 1.0, 1.0 + 2.0 ** -4)))
     return cases
